@@ -28,6 +28,7 @@ import (
 type Modules struct {
 	Modules      map[string]*Module // All "module" nodes
 	SubModules   map[string]*Module // All "submodule" nodes
+	loaded       map[string]*Module // Every accepted node by kind and full name (duplicate detection)
 	includes     map[*Module]bool   // Modules we have already done include on
 	nsMu         sync.Mutex         // nsMu protects the byNS map.
 	byNS         map[string]*Module // Cache of namespace lookup
@@ -61,6 +62,7 @@ func NewModules() *Modules {
 	ms := &Modules{
 		Modules:         map[string]*Module{},
 		SubModules:      map[string]*Module{},
+		loaded:          map[string]*Module{},
 		includes:        map[*Module]bool{},
 		byNS:            map[string]*Module{},
 		typeDict:        newTypeDictionary(),
@@ -176,12 +178,15 @@ func (ms *Modules) add(n Node) error {
 	fullName := mod.FullName()
 	mod.Modules = ms
 
-	if o := m[fullName]; o != nil {
+	// A duplicate is a node of the same kind, name and revision.  This must
+	// not depend on the load order, so it cannot be decided from m alone: a
+	// module without revision loses the bare name to any later revision.
+	if o := ms.loaded[kind+" "+fullName]; o != nil {
 		return fmt.Errorf("duplicate %s %s at %s and %s", kind, fullName, Source(o), Source(n))
 	}
-	m[fullName] = mod
-	if fullName == name {
-		return nil
+	ms.loaded[kind+" "+fullName] = mod
+	if fullName != name {
+		m[fullName] = mod
 	}
 
 	// Add us to the map if:
